@@ -22,4 +22,15 @@ inline int past_end(const std::vector<int> &v) {
     return *(v.end());                    // R07d
 }
 }
-int use_c07() { return (int) positive::dangling() + positive::dangling2("x") + positive::past_end(std::vector<int>()); }
+namespace parmcb {
+struct fake_frontier {
+    int d[4];
+    bool has_finite_dist(int v) const { return d[v] != 2147483647; }
+    int get_dist(int v) const { return d[v]; }
+};
+// R07f positive: stand-in with the library's name; plain + on a label that may be the infinity marker
+inline int bidirectional_signed_dijkstra(const fake_frontier &other, int c, int w) {
+    return c + other.get_dist(w);
+}
+}
+int use_c07() { parmcb::fake_frontier ff = {{0, 1, 2, 3}}; return parmcb::bidirectional_signed_dijkstra(ff, 1, 2) + (int) positive::dangling() + positive::dangling2("x") + positive::past_end(std::vector<int>()); }
